@@ -1776,14 +1776,18 @@ def control_terms(facts, fn, site, polar=True):
             term = '&'.join(sorted(at))
             if polar:
                 ss = [s for s in sw.labels if s in pd]
-                inev = [s for s in ss if site in pd[s]]
                 pol = ''
-                if inev and len(inev) < len(ss):
-                    pol = edge_polarity(sw, inev, fn)
+                # strong outcome: the site can only be reached after this outcome; weak ('~'): the site can be reached after
+                # either outcome (a join point, a disjunct) but is inevitable only after this one
+                reach = [s for s in ss if site in fn.reachable([s], cut_blocks=[a])]
+                if reach and len(reach) < len(ss):
+                    pol = edge_polarity(sw, reach, fn)
                 else:
-                    reach = [s for s in ss if site in fn.reachable([s], cut_blocks=[a])]
-                    if reach and len(reach) < len(ss):
-                        pol = edge_polarity(sw, reach, fn)
+                    inev = [s for s in ss if site in pd[s]]
+                    if inev and len(inev) < len(ss):
+                        pol = edge_polarity(sw, inev, fn)
+                        if pol:
+                            pol = '~' + pol
                 if pol:
                     term += '@' + pol
             terms.append(term)
